@@ -26,8 +26,11 @@ IN = z3.Function("in_readout", I, B); RS = z3.Function("readout_start", I, I); N
 LFb = z3.BitVecVal(LF, 8); SLb = z3.BitVecVal(SLASH, 8); BGb = z3.BitVecVal(BANG, 8)
 def LE(p): return S.FIDX(G, LFb, p, TEND)          # end of the line that starts at p (position of its LF), TEND when the line is not complete
 
+def line_start(p): return z3.Or(p == A0, z3.And(p > A0, G[p - 1] == LF))
 def clean_at(p):
     """CLEAN(p) for a line start p >= A0"""
+    return z3.Implies(line_start(p), _clean_at(p))
+def _clean_at(p):
     e = LE(p); q = e + 1
     ident = z3.And(G[p] == SLASH, S.ALLASCII(G, p, q), S.IDENT(G, p, q), IN(q), RS(q) == p, NRO(q) == NRO(p))
     endl = z3.And(z3.Not(IN(q)), NRO(q) == NRO(p) + 1)
@@ -40,8 +43,7 @@ def clean_at(p):
 def state_goals(st, rd, ls):
     """STATE at the line start ls (the reader's read position)"""
     v = p1_view(st, rd)
-    line_start = z3.Or(ls == A0, z3.And(ls > A0, G[ls - 1] == LF))
-    g = [("clean stream: the read position is a line start of the clean part", z3.And(line_start, ls >= A0, ls <= TEND)),
+    g = [("clean stream: the read position is a line start of the clean part", z3.And(line_start(ls), ls >= A0, ls <= TEND)),
          ("clean stream: hunt mode exactly when not inside a readout", z3.BoolVal(v["hunt"]) == z3.Not(IN(ls)))]
     if not v["hunt"]: g.append(("clean stream: collected octets start where the readout started", v["raw"].off == RS(ls)))
     return g
@@ -127,6 +129,112 @@ def clean_stream_obligations(eng):
         obls += ctx.obls
     eng.list_append_hook = None
     return obls
+
+# ----------------------------------------------------------------------------- C16 (P1): resynchronisation after arbitrary bytes
+A1 = z3.Int("A1")          # ghost: start of the second readout of the clean part (= end of the first one)
+def first_readout_facts():
+    """the first readout of the clean part lies between A0 and A1"""
+    return [A0 >= 0, A1 > A0, A1 < TEND, G[A1 - 1] == LF, z3.Not(IN(A1)), NRO(A1) == 1, NRO(A0) == 0, z3.Not(IN(A0)), clean_at(A0), clean_at(A1),
+            LE(A0) >= A0, LE(A0) < A1 - 1]          # the identification line of the first readout ends before its end line does
+def inside_first(p):
+    """hypotheses about a position p of the first readout: '/' occurs only where a readout starts; line starts between A0 and A1 are inside the readout that started at A0"""
+    return z3.And(z3.Implies(z3.And(p >= A0, p < TEND, G[p] == SLASH), z3.And(line_start(p), z3.Not(IN(p)))),
+                  z3.Implies(z3.And(p > A0, p < A1, line_start(p)), z3.And(IN(p), RS(p) == A0)))
+
+def resync_obligations(eng):
+    """read() from ANY reader state (arbitrary bytes before A0) whose read position has not passed A1: afterwards either still not past A1, or at / beyond A1 in the clean-stream
+    contract's STATE - the read position never jumps over A1, and it reaches A1 hunting with nothing collected.  Readouts returned before A1 are not constrained ('except possibly
+    the first'); from A1 on one readout per end line, byte-identical."""
+    fn_rd, mod, cls = eng.funcs[P + "read"]
+    obls = []
+    for hunt in (True, False):
+        st = State(); rd, buf = mk_p1reader(st, hunt, eng=eng)
+        for _, g in p1_inv(st, rd): st.pc.append(g)
+        v0 = p1_view(st, rd)
+        cn = z3.Int("cn"); gt0 = v0["gt"]; gt1 = gt0 + cn; ls0 = v0["gp"]
+        if not any(str(cn) == str(x) for x in eng.len_vars): eng.len_vars.append(cn)
+        st.pc += [S.FIDX(G, LFb, ls0, gt0) >= gt0, v0["b"].n + v0["raw"].n <= MAX_P1, cn >= 0, gt1 <= TEND, ls0 < A1] + first_readout_facts()
+        def before_goals(st_, gp):
+            """W(gp): before A1 nothing is known about the reader except that a collecting reader stands at a line start of the stream"""
+            v = p1_view(st_, rd)
+            g = [("position", gp >= 0)]
+            if not v["hunt"]: g.append(("a collecting reader stands right after a line end", z3.And(gp >= 1, G[gp - 1] == LF)))
+            return g
+        st.pc += [g for _, g in before_goals(st, ls0)]
+        root = f"{P}read[resync,{'hunt' if hunt else 'collecting'}]"
+        ctx = Ctx(eng, mod, cls, P + "read", root_name=root); ctx.verifying = P + "read"; ctx.fork_implicit = True
+        st.locals = {"self": rd, "data_chunk": SBytes(G, cn, gt0)}
+        st.setf(rd, "$g_total", SInt(gt1)); st.ghost["chunk_is_stream_segment"] = (gt0, gt1)
+        st.ghost["delivered"] = SInt(z3.IntVal(0))
+        def hook(st_, lst, item, ctx_, node_, rd=rd):
+            ok = isinstance(item, Ref) and st_.cls(item) == D + "DataReadout"
+            ctx_.oblige(st_, "post:returned object is a DataReadout", z3.BoolVal(ok), node_)
+            if not ok: return
+            r = st_.getf(item, "_readout"); v = p1_view(st_, rd); e = view_end(r); hp = st_.ghost.get("head_pos")
+            if hp is None: ctx_.oblige(st_, "post:readouts are returned from inside the line loop", z3.BoolVal(False), node_); return
+            ctx_.oblige(st_, "post:from the second readout of the clean part on: returned exactly at an end line, byte-identical to the stream from its identification line to the end of its end line",
+                        z3.Implies(hp >= A1, z3.And(IN(hp), G[hp] == BANG, z3.BoolVal(r.arr.eq(G)), r.off == RS(hp), e == LE(hp) + 1, e == v["gp"])), node_)
+            st_.ghost["delivered"] = SInt(z3.If(hp >= A1, to_int(st_.ghost["delivered"]) + 1, to_int(st_.ghost["delivered"])))
+        eng.list_append_hook = hook
+        def havoc(st_h, e, rd=rd, gt1=gt1):
+            outs = []
+            for h2 in (True, False):
+                s2 = st_h.fork(); tag = f"__l{next(_calls)}"
+                rd2, buf2 = mk_p1reader(s2, h2, tag=tag, eng=e)
+                s2.heap[rd.oid] = (s2.heap[rd2.oid][0], s2.heap[rd2.oid][1]); del s2.heap[rd2.oid]
+                s2.ghost["delivered"] = SInt(fresh("delivered", I))
+                gp = p1_view(s2, rd)["gp"]; s2.ghost["head_pos"] = gp
+                le_buf = S.FIDX(G, LFb, gp, gt1)
+                fle = lambda t, lo, hi, kq: z3.Implies(z3.And(lo <= kq, kq < hi, G[kq] == LF), t <= kq)          # instance of lemma first_index_of_le (an occurrence at kq bounds the first index)
+                s2.pc += [clean_at(gp), inside_first(gp), clean_at(LE(gp) + 1), inside_first(LE(gp) + 1),
+                          fle(le_buf, gp, gt1, A1 - 1), fle(LE(gp), gp, TEND, A1 - 1), fle(le_buf, gp, gt1, LE(A0)), fle(LE(gp), gp, TEND, LE(A0))]
+                outs.append(s2)
+            return outs
+        def phase(st_, gp, dl):
+            """one named clause per fact: W before A1, STATE from A1 on"""
+            out = [(f"resync[before A1]: {nm}", z3.Implies(gp < A1, g)) for nm, g in before_goals(st_, gp)]
+            out.append(("resync[before A1]: nothing counted yet", z3.Implies(gp < A1, dl == 0)))
+            out += [(f"resync[from A1 on]: {nm}", z3.Implies(gp >= A1, g)) for nm, g in state_goals(st_, rd, gp)]
+            out.append(("resync[from A1 on]: one readout counted per end line consumed after the first readout", z3.Implies(gp >= A1, dl == NRO(gp) - 1)))
+            return out
+        def inv(st_, e, rd=rd, gt1=gt1):
+            v = p1_view(st_, rd); st_.ghost["head_raw"] = (v["raw"], v["hunt"]); dl = to_int(st_.ghost["delivered"])
+            return list(p1_inv(st_, rd)) + phase(st_, v["gp"], dl) + [("ghost: stream length", v["gt"] == gt1)]
+        def dec(st_, e, rd=rd): return p1_view(st_, rd)["pl"]
+        eng.loop_specs[(P + "read", 0)] = (inv, dec, {}, havoc)
+        eng.cuts.pop((P + "read", "loop:0"), None)
+        for st1, flow, val in eng.exec_block(fn_rd.body, st, ctx):
+            eng.stats["paths"] += 1
+            if not eng.feasible(st1): continue
+            if flow == RAISE:
+                ctx.oblige(st1, f"raises:nothing escapes ({val.exc}: {val.info})", z3.BoolVal(False), fn_rd); continue
+            v = p1_view(st1, rd); dl = to_int(st1.ghost["delivered"])
+            for nm, g in phase(st1, v["gp"], dl): ctx.oblige(st1, f"post:{nm}", g, fn_rd)
+            ctx.oblige(st1, "post:no complete line is left unconsumed", S.FIDX(G, LFb, v["gp"], v["gt"]) >= v["gt"], fn_rd)
+            ctx.oblige(st1, f"post:len(buffer) + len(collected) <= {MAX_P1}", v["b"].n + v["raw"].n <= MAX_P1, fn_rd)
+        for o in ctx.obls: o.meta.update(replay="replay_clean_p1", witness=M.p1_witness(hunt, extra=[("cn", cn), ("A0", A0), ("A1", A1)]))
+        obls += ctx.obls
+    eng.list_append_hook = None
+    return obls
+
+def resync_canaries(eng):
+    """reachability under the resync hypotheses (each `never` must be refuted)"""
+    out = []
+    for hunt in (True, False):
+        st = State(); rd, buf = mk_p1reader(st, hunt, tag="__rc", eng=eng)
+        for _, g in p1_inv(st, rd): st.pc.append(g)
+        v = p1_view(st, rd); gp = v["gp"]; e = S.FIDX(G, LFb, gp, v["gt"])
+        st.pc += [v["pl"] >= 1, e < v["gt"], v["gt"] <= TEND, v["b"].n + v["raw"].n <= MAX_P1, gp < A1] + first_readout_facts() + [clean_at(gp), inside_first(gp), clean_at(e + 1)]
+        if not hunt: st.pc += [gp >= 1, G[gp - 1] == LF]
+        bound = lambda K, v=v: [v["b"].n <= K, v["raw"].n <= K, v["gt"] <= 3 * K + 4, TEND <= 4 * K + 8, A0 <= K, A1 <= 3 * K]
+        cases = {"the reader is still inside the noise before the first readout": gp < A0, "the reader stands at the start of the first readout": gp == A0, "the line about to be read ends the first readout": e + 1 == A1}
+        for nm, c in cases.items():
+            out.append(Obligation(f"canary.resync_p1_never[{nm}][{'hunt' if hunt else 'collecting'}]", list(st.pc), z3.Not(c), kind="canary", expect_refuted=True, meta={"refute_bound": bound}))
+    return out
+
+def group_resync_p1(repo):
+    eng = M.mk_engine(repo); M.install_p1(eng)
+    return eng, resync_obligations(eng) + resync_canaries(eng), {}
 
 def cover_canaries(eng):
     """the hypotheses are satisfiable together with every kind of line the loop can meet (each `never` must be refuted)"""
